@@ -832,7 +832,7 @@ fn node_ref<'b>(n: &'b GNode, path: &[usize]) -> &'b GNode {
 
 pub const DEFECTS: &[&str] = &[
     "unknown-element", "misplaced-element", "unknown-attribute", "unknown-enum-item", "foreign-enum-item", "version-element", "version-element-nested", "version-attribute",
-    "version-enum-item", "choice-conflict", "multiplicity", "multiplicity-nonadjacent", "missing-short-name", "missing-required-attr", "too-long", "pattern-mismatch",
+    "version-enum-item", "choice-conflict", "multiplicity", "multiplicity-nonadjacent", "missing-short-name", "missing-short-name-empty", "missing-required-attr", "too-long", "pattern-mismatch",
     "not-a-number", "bad-entity", "bad-entity-sign", "trailing-data", "tail-misc-only", "bad-version", "bad-namespace", "header-inside", "text-forbidden",
     "invalid-utf8", "element-in-chars", "empty-value",
 ];
@@ -1140,6 +1140,29 @@ impl<'a> G<'a> {
                         return true;
                     }
                 }
+                "missing-short-name-empty" => {
+                    // an identifiable element without any content, in the empty-element spelling <X/> (also <X />, <X UUID=".."/>) and,
+                    // as control, <X></X>: the required SHORT-NAME is missing in all of them
+                    if is_root || !et.is_named_in_version(self.v) {
+                        continue;
+                    }
+                    let name = node_ref(root, p).name.clone();
+                    let uuid_ok = et.find_attribute_spec(AttributeName::Uuid).map(|sp| sp.version & vm != 0).unwrap_or(false);
+                    let k = self.tcur;
+                    self.tcur += 1;
+                    let raw = match k % 5 {
+                        0 => format!("<{}/>", name),
+                        1 => format!("<{} />", name),
+                        2 if uuid_ok => format!("<{} UUID=\"u{}\"/>", name, k),
+                        3 => format!("<{}></{}>", name, name),
+                        _ => format!("<{}\n/>", name),
+                    };
+                    let (pp, last) = (&p[..p.len() - 1], p[p.len() - 1]);
+                    let parent = node_at(root, pp);
+                    parent.items[last] = GItem::Raw(raw.into_bytes());
+                    self.stat(&format!("missing-short-name-empty.spelling{}", k % 5));
+                    return true;
+                }
                 "missing-required-attr" => {
                     if is_root {
                         continue;
@@ -1390,6 +1413,39 @@ impl<'a> G<'a> {
         }
         false
     }
+}
+
+/// put `val` into the first element text (is_attr = false) or attribute (is_attr = true) whose spec is the pattern `regex`
+fn set_pattern_value(n: &mut GNode, regex: &str, val: &[u8], is_attr: bool) -> bool {
+    if let Some(et) = n.et {
+        if !is_attr {
+            if let Some(CharacterDataSpec::Pattern { regex: r, .. }) = et.chardata_spec() {
+                if *r == regex && et.content_mode() == ContentMode::Characters {
+                    n.items = vec![GItem::Text(GText::plain(val))];
+                    return true;
+                }
+            }
+        } else {
+            let specs: Vec<(AttributeName, &CharacterDataSpec, bool)> = et.attribute_spec_iter().collect();
+            for (an, c, _) in specs {
+                if let CharacterDataSpec::Pattern { regex: r, .. } = c {
+                    if *r == regex && n.name != "AUTOSAR" {
+                        n.attrs.retain(|a| a.0 != an.to_str());
+                        n.attrs.push((an.to_str().to_string(), GText::plain(val)));
+                        return true;
+                    }
+                }
+            }
+        }
+    }
+    for it in n.items.iter_mut() {
+        if let GItem::Node(c) = it {
+            if set_pattern_value(c, regex, val, is_attr) {
+                return true;
+            }
+        }
+    }
+    false
 }
 
 // ------------------------------------------------------------------------------------------------ mutator
@@ -1668,6 +1724,96 @@ pub fn main(args: &[String]) {
         }
     }
     g.stats.insert("kinds-targeted".into(), kinds_hit.len() as u64);
+    // NEAR-MEMBER values for every pattern-validated type (C02: the validators run on arbitrary bytes): for each published regex the
+    // members (corpus + generic) and single-byte edits of them that keep the length (move one byte to another position, swap,
+    // replace) or change it by one (delete, duplicate, insert), placed as element text / attribute value in a minimal valid hierarchy
+    {
+        let mut sites: BTreeMap<String, Vec<(usize, ElementType, bool, fn(&[u8]) -> bool)>> = BTreeMap::new();
+        for (vi, v) in vers.iter().enumerate() {
+            for t in chains_all[vi].order.iter() {
+                if let Some(CharacterDataSpec::Pattern { regex, check_fn, .. }) = t.chardata_spec() {
+                    let e = sites.entry(regex.to_string()).or_default();
+                    if e.iter().filter(|x| !x.2).count() < 3 && t.content_mode() == ContentMode::Characters {
+                        e.push((vi, *t, false, *check_fn));
+                    }
+                }
+                for (an, c, _) in t.attribute_spec_iter() {
+                    if let CharacterDataSpec::Pattern { regex, check_fn, .. } = c {
+                        if t.find_attribute_spec(an).map(|sp| sp.version & (*v as u32) != 0).unwrap_or(false) {
+                            let e = sites.entry(regex.to_string()).or_default();
+                            if e.iter().filter(|x| x.2).count() < 2 {
+                                e.push((vi, *t, true, *check_fn));
+                            }
+                        }
+                    }
+                }
+            }
+        }
+        let cap = if thorough { 1200 } else { 130 };
+        for (regex, ss) in sites.iter() {
+            let check_fn = ss[0].3;
+            let mut base: Vec<Vec<u8>> = members.by_text.get(regex).cloned().unwrap_or_default();
+            for gname in GENERIC {
+                if check_fn(gname.as_bytes()) {
+                    base.push(gname.as_bytes().to_vec());
+                }
+            }
+            base.dedup();
+            let mut vals: Vec<Vec<u8>> = Vec::new();
+            for m in base.iter().filter(|m| !m.is_empty() && m.len() <= 64) {
+                vals.push(m.clone());
+                let n = m.len();
+                for i in 0..n {
+                    // delete, duplicate
+                    let mut d = m.clone();
+                    d.remove(i);
+                    vals.push(d);
+                    let mut d = m.clone();
+                    d.insert(i, m[i]);
+                    vals.push(d);
+                    // move byte i to every other position (length kept)
+                    for j in 0..n {
+                        if j != i {
+                            let mut d = m.clone();
+                            let c = d.remove(i);
+                            d.insert(j, c);
+                            vals.push(d);
+                        }
+                    }
+                    // replace by / insert a byte that occurs in the member or a separator
+                    for c in [m[(i * 7 + 3) % n], b':', b'.', b'-', b'0', b'x', b' ', b'/'] {
+                        let mut d = m.clone();
+                        d[i] = c;
+                        vals.push(d);
+                        let mut d = m.clone();
+                        d.insert(i, c);
+                        vals.push(d);
+                    }
+                }
+            }
+            vals.sort();
+            vals.dedup();
+            // deterministic sample, spread over the whole list
+            let step = (vals.len() / cap).max(1);
+            let off = (seed as usize) % step;
+            let mut count = 0;
+            for (k, val) in vals.iter().enumerate() {
+                if k % step != off || val.is_empty() {
+                    continue;
+                }
+                let (vi, t, is_attr, _) = ss[count % ss.len()];
+                count += 1;
+                let mut tree = g.gen_doc(vers[vi], &chains_all[vi], Some(t), 3);
+                if set_pattern_value(&mut tree, regex, val, is_attr) {
+                    let st = g.style();
+                    let doc = g.render(&tree, &st);
+                    write_case(&mut fmut, &doc, if is_attr { "mut:near-member-attribute" } else { "mut:near-member-text" });
+                    g.stat("mutant.near-member");
+                }
+            }
+            g.stat("near-member.regexes");
+        }
+    }
     // valid documents of the classes that are known to be mishandled
     for class in ["pattern-ref", "enc-blank", "split-text", "split-text-pi", "mixed-split"] {
         let mut made = 0;
